@@ -60,6 +60,17 @@ def FS.entry (fs : FS) (d : Ino) (n : Name) : Option Ino :=
 def validName (n : Name) : Bool :=
   n != "." && n != ".." && !(n.toList.contains '/')
 
+/-- `strings.Split(s, "/")` on characters (kernel-reducible, unlike `String.splitOn`). -/
+def splitChars : List Char → List (List Char)
+  | [] => [[]]
+  | c :: cs =>
+    if c = '/' then [] :: splitChars cs
+    else match splitChars cs with
+      | h :: t => (c :: h) :: t
+      | [] => [[c]]
+
+def components (s : String) : List Name := (splitChars s.toList).map String.ofList
+
 /-- What the kernel does with an arbitrary `name` relative to a directory when
 the final component must not be a symbolic link: `.` is the directory, `..` its
 parent, a name with separators is walked component by component *following
@@ -81,11 +92,11 @@ def klookupFuel : Nat → FS → Ino → List Name → Option Ino
     | some i =>
       if rest.isEmpty then some i else
       match fs.get i with
-      | some (.symlink t) => klookupFuel fuel fs d (t.splitOn "/" ++ rest)
+      | some (.symlink t) => klookupFuel fuel fs d (components t ++ rest)
       | _ => klookupFuel fuel fs i rest
 
 def FS.klookup (fs : FS) (d : Ino) (name : Name) : Option Ino :=
-  klookupFuel 64 fs d (name.splitOn "/")
+  klookupFuel 64 fs d (components name)
 
 inductive Err
   | invalidName | notFound | isLink | notDirectory | notFile | rootNotDirectory | rootOpenedAsDirectory
@@ -163,7 +174,7 @@ def Opener.openFile (fs : FS) (o : Opener) (path : String) : Opener × Except Er
       | some (.file _) => (o, .ok fs.root, [])
       | _ => (o, .error .notFile, [])
   else
-    let comps := path.splitOn "/"
+    let comps := components path
     let parents := comps.dropLast
     let leaf := comps.getLast!
     let opened : Except Err (Opener × Ino) :=
@@ -201,7 +212,7 @@ def walkComponents (fs : FS) : List Name → Ino → List Access → Except Err 
 /-- transition.go:143-239 for a non-root path: the parent handle and the leaf
 name. -/
 def walkToParent (fs : FS) (path : String) (validateLeaf : Bool) : Except Err (Ino × Name) × List Access :=
-  let comps := path.splitOn "/"
+  let comps := components path
   match openRoot fs with
   | .error e => (.error e, [])
   | .ok r =>
